@@ -63,8 +63,8 @@ func (s *Scope) InBlock(name Object) bool {
 		return true
 	}
 	parents := s.parents
-	if s.call { // the blocks of the caller are not visible in a function, those of the closure are
-		parents = parents[1:]
+	if s.call { // the blocks of the caller, the last parent, are not visible in a function, those of the closure are
+		parents = parents[:len(parents)-1]
 	}
 	for _, p := range parents {
 		if p.InBlock(name) {
